@@ -33,6 +33,7 @@ GEN_SPECS = {
 }
 SPEC = os.environ.get("H_SPEC", "dep")
 NCH = int(os.environ.get("H_CHOICES", "6"))
+WHICH = int(os.environ.get("H_WHICH", "-1"))  # >= 0: the replacement candidate is fixed per condition
 G = load(GEN_SPECS[SPEC])
 nodes_mod.MAX_REPETITIONS = 2
 RET_ALPHA = "01a"
@@ -146,7 +147,7 @@ def fields_follow_generators(choices: List[int]) -> bool:
 def operators_respect_generators(choices: List[int], target: int, which: int) -> bool:
     """
     pre: len(choices) <= NCH and all(0 <= c <= 2 for c in choices)
-    pre: 0 <= target <= 24 and 0 <= which <= 5
+    pre: 0 <= target <= 24 and 0 <= which <= 5 and (WHICH < 0 or which == WHICH)
     post: _
     """
     exclude_known("operators_respect_generators", choices=choices, target=target, which=which, SPEC=SPEC)
@@ -180,7 +181,7 @@ def operators_respect_generators(choices: List[int], target: int, which: int) ->
 def reach_ops(choices: List[int], target: int, which: int) -> bool:
     """
     pre: len(choices) <= NCH and all(0 <= c <= 2 for c in choices)
-    pre: 0 <= target <= 24 and 0 <= which <= 5
+    pre: 0 <= target <= 24 and 0 <= which <= 5 and (WHICH < 0 or which == WHICH)
     post: _
     """
     # twin: an argument recorded in .sources is replaced and the generated text changes
